@@ -281,3 +281,46 @@ func C15ChecksumXML() {
 	zz.Assert((c1 == c2) == same, "checksums differ when any ingested value differs")
 	zz.Cover("compared")
 }
+
+// C14ParIngest: two goroutines each run a whole transform (build records from pooled nodes,
+// ingester Read = transform + marshal + checksum, Release back to the pool) over one shared
+// validated schema. For every interleaving of the synchronisation operations within the
+// preemption bound: no data race on schema declarations, node pool, ID counter or expression
+// cache; no node used after its release or owned twice across threads; and each thread's
+// outputs and checksums are byte-identical to its serial run.
+func C14ParIngest() {
+	zz.MapOrder(0)
+	K := zz.Param("K", 1)
+	decl := transform.ZZValidate(map[string]*transform.Decl{"FINAL_OUTPUT": {Object: map[string]*transform.Decl{
+		"a": {XPath: zzS("v")},
+		"c": {Object: map[string]*transform.Decl{"v": {XPath: zzS("v")}, "k": {Const: zzS("k")}}},
+	}}})
+	var ta, tb []string
+	for i := 0; i < K; i++ {
+		b := zz.NondetBytes("recA", 1)
+		for _, c := range b {
+			zz.Assume(zz.ByteIn(c, "1a "))
+		}
+		ta = append(ta, string(b))
+		tb = append(tb, []string{"x", " y"}[i%2])
+	}
+	iters := zz.Stress(100)
+	for it := 0; it < iters; it++ {
+		var oa, sa, ob, sb []string
+		zz.Par(func() { oa, sa = zzRunOnce(ta, decl) }, func() { ob, sb = zzRunOnce(tb, decl) })
+		zz.Cover("joined")
+		ra, rsa := zzRunOnce(ta, decl)
+		rb, rsb := zzRunOnce(tb, decl)
+		zz.Assert(len(oa) == len(ra) && len(ob) == len(rb), "same number of results as alone")
+		for i := range ra {
+			if i < len(oa) {
+				zz.Assert(oa[i] == ra[i] && sa[i] == rsa[i], "thread A: output and checksum as in its serial run")
+			}
+		}
+		for i := range rb {
+			if i < len(ob) {
+				zz.Assert(ob[i] == rb[i] && sb[i] == rsb[i], "thread B: output and checksum as in its serial run")
+			}
+		}
+	}
+}
